@@ -92,7 +92,7 @@ def cmd_import(wt, prop, rnd=1):
 
 
 def cmd_verify(i, suite=False):
-    d = scratch('v-' + i)
+    d = scratch('v-%s-%d' % (i, os.getpid()))
     try:
         sd = os.path.join(SEEDED, i)
         os.makedirs(os.path.join(d, '_seed'), exist_ok=True)
@@ -135,7 +135,7 @@ def claimed():
 
 
 def cmd_check(i):
-    d = scratch('c-' + i)
+    d = scratch('c-%s-%d' % (i, os.getpid()))
     try:
         sd = os.path.join(SEEDED, i)
         rca, outa = sh('git apply %s' % os.path.join(sd, 'patch.diff'), cwd=d)
